@@ -73,6 +73,29 @@ def check_hashing(ctx, W, rule):
                         some_succ = dsw["otherwise"]
                 whole = len(exits) == 1 and exits[0][0] == hf.blocks[nb].term["tgt"] and some_succ is not None and \
                     values.must_pass(hf, [ups[0][0]], from_block=some_succ, to_blocks={lp["header"]})
+        if not ups and not others:
+            # `pieces.iter().for_each(|p| ctx.update(p))`: the closure's whole effect is one update of the captured context with its argument,
+            # and for_each runs it for every element in order
+            for bb, t in hf.calls():
+                if callee_name(t["fn"].get("path", "")) != "for_each" or not hf.dominates(bb, r[3][1] if len(r) > 3 and r[3] else bb):
+                    continue
+                a = hev.call_args(bb)
+                src = W.expand(a[0])
+                while isinstance(src, tuple) and src and (src[0] == "reader" or (is_call(src) and callee_name(src[1]) in ("iter", "into_iter", "copied", "cloned") and src[2])):
+                    src = src[1] if src[0] == "reader" else W.expand(src[2][0])
+                clo = a[1] if len(a) > 1 else None
+                if src != PIECES or not (isinstance(clo, tuple) and clo and clo[0] == "closure" and clo[1] in ctx.prog.fns and cobj in clo[2]):
+                    continue
+                cf = ctx.prog.fns[clo[1]]
+                cev = W.ev(cf.path)
+                ccalls = [(b2, t2) for b2, t2 in cf.calls()]
+                envi = list(clo[2]).index(cobj)
+                if len(ccalls) == 1 and callee_name(ccalls[0][1]["fn"].get("path", "")) == "update" and not cf.loops() and \
+                        values.must_pass(cf, [ccalls[0][0]], from_block=0):
+                    ca = cev.call_args(ccalls[0][0])
+                    if ca[0] == ("field", ("param", cf.path, 1), str(envi)) and W.expand(ca[1]) == ("param", cf.path, 2):
+                        whole = True
+                        ups = [(bb, a)]
         hdet = "streaming digest: %d update site(s), other context mutations %s" % (len(ups), others)
     elif is_call(r) and callee_name(r[1]) == "digest" and "ring::digest" in r[1] and len(r[2]) == 2:
         alg = r[2][0]
